@@ -15,6 +15,16 @@ if typing.TYPE_CHECKING:
 rootpath = None
 
 
+def has_fileno(fileobj: typing.Any) -> bool:
+    """True if fileobj is backed by an OS-level descriptor that can be handed
+    to a child process (false for in-memory buffers and ZIP members)."""
+    try:
+        fileobj.fileno()
+    except (AttributeError, OSError):
+        return False
+    return True
+
+
 class VFS_Real:
     def __init__(
         self, config: configparser.ConfigParser, chain: typing.Optional[VFS_Real] = None
